@@ -509,7 +509,28 @@ func c07Short(c *fw.Ctx, i int) {
 	hooked := hookSetYield(c07Yield(r, r.Pick(0, 30, 60)))
 	defer hookSetYield(nil)
 	seq := rtp.NewFixedSequencer(start)
+	random := i%8 == 7
+	if random {
+		// a random sequencer whose very first calls come from all clients at once
+		g = r.Pick(2, 4, 8, 16, 16)
+		opsEach = r.Range(1, 4)
+		seq = rtp.NewRandomSequencer()
+	}
 	ops := c07RunHistory(r, seq, g, opsEach, 20, r.Pick(0, 20, 50))
+	if random {
+		// the start value is whatever the smallest issued value is (no wrap can occur: the start is below 2^15, the history is short)
+		min, any := uint16(0), false
+		for _, o := range ops {
+			if o.next && (!any || uint16(o.out) < min) {
+				min, any = uint16(o.out), true
+			}
+		}
+		if !any {
+			return
+		}
+		start = min
+		c.Count("short_histories_on_random_sequencers", 1)
+	}
 	c.Evals(len(ops))
 	c.Count("short_histories", 1)
 	if hooked {
@@ -531,11 +552,15 @@ func c07Short(c *fw.Ctx, i int) {
 		c.Count("histories_containing_the_wrap", 1)
 	}
 	wit := func(extra ...any) map[string]any {
-		m := fw.W("start", start, "goroutines", g, "ops_each", opsEach, "gomaxprocs", procs, "history", c07Dump(ops, 200))
+		m := fw.W("start", start, "random_sequencer", random, "goroutines", g, "ops_each", opsEach, "gomaxprocs", procs, "history", c07Dump(ops, 200))
 		for q := 0; q+1 < len(extra); q += 2 {
 			m[fmt.Sprint(extra[q])] = extra[q+1]
 		}
 		return m
+	}
+	if random && start >= 1<<15 {
+		c.Fail("C07/random/first-value-not-below-2^15", fmt.Sprintf("the smallest value a random sequencer issued is %d", start), wit())
+		return
 	}
 	// porcupine
 	pops := make([]porcupine.Operation, len(ops))
